@@ -1,6 +1,7 @@
 package app
 
 import (
+	"bytes"
 	"encoding/hex"
 	"fmt"
 	"math"
@@ -262,6 +263,15 @@ func (app *App) txChecker() txChecker {
 		if err != nil {
 			app.logger.Errorf("checkTx failed to deserialize msg: %v, error: %s ", msg, err)
 		}
+		// the replay record is keyed by the hash of the received bytes while the signatures cover
+		// the parsed content, so only the one canonical encoding of that content is admitted
+		if !bytes.Equal(msg.Tx, tx.SignedBytes()) {
+			app.Context.check.DiscardTxSession()
+			return ResponseCheckTx{
+				Code: CodeNotOK.uint32(),
+				Log:  "transaction is not in canonical encoding",
+			}
+		}
 		txCtx := app.Context.Action(&app.header, app.Context.check)
 		handler := txCtx.Router.Handler(tx.Type)
 
@@ -326,6 +336,14 @@ func (app *App) txDeliverer() txDeliverer {
 		err := serialize.GetSerializer(serialize.NETWORK).Deserialize(msg.Tx, tx)
 		if err != nil {
 			app.logger.Errorf("deliverTx failed to deserialize msg: %v, error: %s ", msg, err)
+		}
+		// see txChecker: a re-encoding of an already executed transaction must not run again
+		if !bytes.Equal(msg.Tx, tx.SignedBytes()) {
+			app.Context.deliver.DiscardTxSession()
+			return ResponseDeliverTx{
+				Code: CodeNotOK.uint32(),
+				Log:  "transaction is not in canonical encoding",
+			}
 		}
 		txCtx := app.Context.Action(&app.header, app.Context.deliver)
 
